@@ -6,7 +6,7 @@ import tempfile
 import numpy
 
 from .. import fixtures, gridcases
-from ..core import digest
+from ..core import digest, scratch_dir
 from . import c01, c13
 
 META = {
@@ -134,7 +134,7 @@ def ex_gridded(ctx, case, ratesB, seed=0):
     import csep.core.brier_evaluations as br
     rc = {"exec": "gridded", "args": {"case": case, "ratesB": ratesB, "seed": seed}}
     ctx.current_case = rc
-    tmp = tempfile.mkdtemp(prefix="c18-", dir=os.environ.get("VERIF_TMP", "/var/tmp"))
+    tmp = scratch_dir("c18-")
     try:
         def fresh():
             fa, cat, reg, w = gridcases.build(case, name="fore A")
@@ -180,7 +180,7 @@ def ex_catalog_based(ctx, fc, obs_mode="normal", seed=0):
     rc = {"exec": "catalog_based", "args": {"fc": fc, "obs_mode": obs_mode, "seed": seed}}
     ctx.current_case = rc
     cfg = {"source": "memory", "filters": False, "spatial": False}
-    tmp = tempfile.mkdtemp(prefix="c18c-", dir=os.environ.get("VERIF_TMP", "/var/tmp"))
+    tmp = scratch_dir("c18c-")
     try:
         f, obs, reg = c13.build(fc, cfg, tmp)
         if obs_mode == "empty":
